@@ -188,7 +188,9 @@ def permeate(draw, t_feed, modes=("vacuum", "temperature", "pressure"), t_low=12
         else:
             t = draw(uniform(t_low, t_feed))
         return {"mode": mode, "T": max(t_low, min(t, t_feed)), "p": None}
-    p = draw(st.one_of(st.just(0.0), loguniform(1e-3, 100.0), loguniform(1e-3, 100.0)))
+    # numeric TYPE is part of the input domain: a pressure may be given as a Python int (0, 2, 50 kPa) as well as a float
+    p = draw(st.one_of(st.just(0.0), loguniform(1e-3, 100.0), loguniform(1e-3, 100.0), loguniform(1e-3, 100.0),
+                       st.sampled_from([0, 1, 2, 3, 5, 10, 50])))
     return {"mode": mode, "T": None, "p": p}
 
 
